@@ -183,4 +183,16 @@ def pop (f : Facts) (hasValue reset : Bool) (r : Sp) (modStr : Str) : Sp :=
     let r3 := if f.kind == .equal then pre r2 else r2
     if f.kind == .dateAfter then post r3 else r3
 
+/-- the list `add_mod` receives inside `mergedExtract` -/
+def beforeMods (inputs : List (List ER)) (unspecific ambiguous : ER → Bool) : List ER :=
+  (removeIter unspecific (addChain inputs)).filter fun e => !ambiguous e
+
+/-- Boolean form of the hypothesis `ExtClear` of `mergedExtract_disjoint` (`extClearB_iff` in RTV/Props/C12.lean): no
+two entities that are disjoint before `add_mod` run into each other through their modifier extensions.  The driver
+evaluates it (`mg.ext`, 4th field) on every recorded `BaseMergedExtractor.extract` call. -/
+def extClearB (src : Str) (ops : Nat → List ModOp) (l : List ER) : Bool :=
+  l.all fun a => l.all fun b =>
+    !(decide (Disjoint a b)) ||
+      decide (Disjoint ((ops a.tag).foldl (applyMod src) a) ((ops b.tag).foldl (applyMod src) b))
+
 end RTV.Merged
